@@ -41,7 +41,7 @@ def view(vm, v):
 
 def F(x): return z3.FPVal(x, F64) if isinstance(x, float) else x
 def Bt(x): return z3.BoolVal(x) if isinstance(x, bool) else x
-def Sv(x): return z3.StringVal(x) if isinstance(x, str) else x
+def Sv(x): return zs(x) if isinstance(x, str) else x
 
 
 def text_of(vm, v):
@@ -111,7 +111,7 @@ def ref_coerce_cmp(vm, a, b):
             t = z3.simplify(Sv(y.p))
             if z3.is_string_value(t):
                 from ..std_str import rust_parse_f64
-                pv = rust_parse_f64(t.as_string())
+                pv = rust_parse_f64(zstr(t))
                 return None if pv is None else (x, V(NUM, pv))
             if vm.branch(parse_ok(y.p)): return x, V(NUM, parse_val(y.p))
             return None
@@ -309,7 +309,7 @@ def h_unary(vm, mir):
     def d(m):
         def evs(t):
             x = m.eval(t, model_completion=True)
-            return x.as_string() if z3.is_string_value(x) else (bool(z3.is_true(x)) if z3.is_bool(x) else f64_bits(x))
+            return zstr(x) if z3.is_string_value(x) else (bool(z3.is_true(x)) if z3.is_bool(x) else f64_bits(x))
         return {'literal': kind, 'payload': None if rv.p is None else evs(rv.p), 'unary': uname}
     vm.describe = d
     r = vm.run_fn(f, [R(pv), R(ue)], {'I': 'I', 'O': 'O'})
@@ -425,7 +425,7 @@ def ref_json(v):
     if v.kind == NUM: return {'kind': k, 'bits': f64_bits(p)}
     if v.kind == S:
         if not z3.is_string_value(p): raise ValueError(f'oracle string not concrete: {p}')
-        return {'kind': k, 'v': p.as_string()}
+        return {'kind': k, 'v': zstr(p)}
     raise ValueError
 
 
